@@ -12,7 +12,7 @@ for id in C01 C02 C03 C04 C05 C06 C07 C08 C09 C10 C11 C12 C13 C14 C15 C16 C17 C1
   ./check $id $T >/dev/null 2>&1; echo "$id rc=$?"
 done
 go tool covdata textfmt -i=$D/cov -o $D/cov.txt 2>/dev/null
-(cd /repo && GOFLAGS=-mod=readonly go tool cover -func=$D/cov.txt) | grep -v "verif_" > /verif/evidence/coverage_$T.txt
-tail -1 /verif/evidence/coverage_$T.txt
+(cd /repo && GOFLAGS=-mod=readonly go tool cover -func=$D/cov.txt) | grep -v "verif_" > /verif/coverage/coverage_$T.txt
+tail -1 /verif/coverage/coverage_$T.txt
 unset VERIF_COVER
 rm -rf $D /verif/.build/drv /verif/.build/drv_race /verif/.build/texel
